@@ -84,7 +84,8 @@ Print Assumptions model_regalloc_preserves_semantics.
 Theorem colouring_separates_neighbours : forall fuel a al, awf a -> a_allocate fuel a = OK al ->
   (forall x y, In (x, y) (a_edges a) -> phys (lookup_default al x) /\ phys (lookup_default al y) /\ lookup_default al x <> lookup_default al y)
   /\ (forall v c, al !! v = Some c -> virt v /\ phys c /\ id_kind c = id_kind v)
-  /\ (forall v, is_Some (a_poss a !! v) -> is_Some (al !! v)).
+  /\ (forall v, is_Some (a_poss a !! v) -> is_Some (al !! v))
+  /\ (forall v c, al !! v = Some c -> In c (a_regs a)).
 Proof. exact allocate_awf. Qed.
 Print Assumptions colouring_separates_neighbours.
 
